@@ -184,7 +184,7 @@ func newClEnv(c *Case) *clEnv {
 	}
 	e.cfg = client.NewConfig("127.0.0.1:1", e.serverKey.PublicKey(), clientKey, 100, ct)
 	e.cfg.RequestTimeout = config.NewDuration(30 * time.Second)
-	e.msgTimeout = time.Duration(cfgInt(c, "msg_timeout_ms", 25)) * time.Millisecond
+	e.msgTimeout = time.Duration(cfgInt(c, "msg_timeout_ms", 120)) * time.Millisecond // long enough that a descheduled thread does not make a free channel look full
 	e.cfg.MessageChannelTimeout = config.NewDuration(e.msgTimeout)
 	rc, err := client.NewRemoteClient(e.cfg)
 	if err != nil {
